@@ -5,6 +5,8 @@
 // constructor with a chosen capacity; it changes no existing code.
 package traefikoidc
 
+import "time"
+
 // VerifNewCache is NewCache with a chosen capacity.
 func VerifNewCache(maxSize int) *Cache {
 	c := NewCache()
@@ -52,3 +54,37 @@ func (t *TraefikOidc) VerifEndpoints() map[string]string {
 // VerifDeriveBlockKey exposes the (public, deterministic) derivation of the cookie encryption key from a session key, so that the
 // keyless analysis can do what anyone holding the source can do: derive block keys from keys of their own choosing.
 func VerifDeriveBlockKey(key string) []byte { return deriveBlockKey(key) }
+
+// VerifExpireKeySet lets the cached provider key set run out now (what the passing of CacheLifetime does); false if the instance
+// does not use the built-in key cache.
+func (t *TraefikOidc) VerifExpireKeySet() bool {
+	c, ok := t.jwkCache.(*JWKCache)
+	if !ok {
+		return false
+	}
+	c.mutex.Lock()
+	c.expiresAt = time.Now().Add(-time.Second)
+	c.mutex.Unlock()
+	return true
+}
+
+// VerifOnKeyConversion makes the start of every JWK-to-PEM conversion a point the harness can observe (and hold a request at):
+// fn runs first, then the unchanged converter. To be installed and restored while no request is in flight.
+func VerifOnKeyConversion(fn func(kty string)) (restore func()) {
+	orig := map[string]jwkToPEMConverter{}
+	for kty, conv := range jwkConverters {
+		orig[kty] = conv
+	}
+	for kty, conv := range orig {
+		kty, conv := kty, conv
+		jwkConverters[kty] = func(j *JWK) ([]byte, error) {
+			fn(kty)
+			return conv(j)
+		}
+	}
+	return func() {
+		for kty, conv := range orig {
+			jwkConverters[kty] = conv
+		}
+	}
+}
